@@ -191,12 +191,13 @@ def shards(tier, seed):
     for fitter in ('fit_optimize', 'fit_optimize_positive', 'Model.fit'):
         for method, sigma in METHSIG:
             if not thorough:
-                cfgs = [(4, 2, 2, 0, [], 'stim'), (4, 2, 2, 2, [], 'index')]
-            else:
-                cfgs = [(4, 2, 1, 0, [], 'index'), (4, 2, 2, 0, [], 'stim'), (4, 2, 3, 2, [2], 'stim'),
-                        (4, 3, 2, 0, [], 'index'), (4, 2, 2, 1, [], 'index'), (4, 3, 2, 2, [], 'stim'),
-                        (5, 2, 2, 0, [0, 9], 'stim'), (5, 3, 3, 2, [], 'index')]
-            for n_cond, k, n_data, fill, mask, desc in cfgs:
+                cfgs = [(4, 2, 2, 0, [], 'stim', 1), (4, 2, 2, 2, [], 'index', 1)]
+            else:       # (n_cond, k, n_data, fill, mask, descriptor, every n-th index multiset)
+                cfgs = [(4, 2, 2, 0, [], 'stim', 1), (4, 3, 2, 2, [], 'stim', 1),
+                        (4, 2, 1, 0, [], 'index', 3), (4, 2, 3, 2, [2], 'stim', 3),
+                        (4, 2, 2, 1, [], 'index', 3), (4, 3, 2, 0, [], 'index', 3),
+                        (5, 2, 2, 0, [0, 9], 'stim', 16), (5, 3, 3, 2, [], 'index', 16)]
+            for n_cond, k, n_data, fill, mask, desc, stride in cfgs:
                 sh = {'kind': 'weighted', 'fitter': fitter, 'n_cond': n_cond, 'k': k,
                       'n_data': n_data, 'fill': fill, 'mask': mask, 'desc': desc,
                       'method': method, 'sigma': sigma, 'perturb': True}
@@ -204,9 +205,7 @@ def shards(tier, seed):
                     plan = [(None, []), ([3, 2, 2, 0], [[2, 0, 3, 2]])]
                 else:
                     plan = _index_plan(sh, tier)
-                    if n_cond == 5:
-                        plan = plan[::9]
-                    plan = [(r, o[:1]) for r, o in plan if r is None or len(set(r)) >= 3]
+                    plan = [(r, o[:1]) for r, o in plan if r is None or len(set(r)) >= 3][::stride]
                 for rep, others in plan:
                     out.append(dict(sh, plan=[[rep, others]]))
     # C: full choice-point exploration of the start-vector draws of fit_optimize
@@ -216,13 +215,18 @@ def shards(tier, seed):
                     'bound': None if thorough else 1, 'n_menu': 2})
     # D: selection and interpolation models
     for fitter in ('fit_select', 'fit_interpolate', 'Model.fit/select', 'Model.fit/interpolate'):
+        via_model = fitter.startswith('Model.fit')
+        slow = fitter.endswith('interpolate')
         for n_cond in (4, 5):
             for k in ((2, 3, 4) if thorough else (2, 3)):
                 for n_data in ((1, 2, 3) if thorough else (1, 3)):
                     for fill in (fills if n_cond == 4 else fills[:1]):
-                        if fitter.startswith('Model.fit') and (fill != 0 or n_data == 1):
+                        if via_model and (fill != 0 or n_data != 3 or (k != 3 and not thorough)):
                             continue
-                        masks = [[], [2]] if (n_cond == 4 and fill == 0) else [[]]
+                        if not thorough and (slow or via_model) and (
+                                n_cond == 5 and (k, n_data) != (3, 3) or fill != 0 and n_data != 3):
+                            continue
+                        masks = [[], [2]] if (n_cond == 4 and fill == 0 and not via_model) else [[]]
                         for mi, mask in enumerate(masks):
                             for method, sigma in METHSIG:
                                 desc = 'stim' if (k + n_data + mi + len(method)) % 2 else 'index'
@@ -230,7 +234,7 @@ def shards(tier, seed):
                                             'k': k, 'n_data': n_data, 'fill': fill, 'mask': mask,
                                             'desc': desc, 'method': method, 'sigma': sigma,
                                             'perturb': bool(not mask and fill == 0 and n_data == 3
-                                                            and (k == 2 or thorough))})
+                                                            and (k == 2 or thorough or via_model))})
     # E: model laws
     for cls in ('fixed', 'select', 'weighted', 'interpolate'):
         for n_cond in (4, 5):
@@ -496,8 +500,9 @@ def _perturb(case, ctx, S, theta, fname):
                      'theta %r with reference-selected data, %r with library-selected data' % (theta, t0))
             return
         entries = [e for e, (i, j) in enumerate(ref.pairs(n)) if i in unsel or j in unsel]
-        one_by_one = case['fitter'] not in RAND_FITTERS and case['fitter'] != 'Model.fit' \
-            and case['fitter'] not in ('fit_interpolate', 'Model.fit/interpolate') or ctx.tier == 'thorough'
+        slow = case['fitter'] in RAND_FITTERS + ('Model.fit', 'fit_interpolate', 'Model.fit/interpolate')
+        one_by_one = not slow or (ctx.tier == 'thorough' and case['k'] == 2 and case['n_data'] == 2
+                                  and case['fill'] == 0)
         variants = []
         if one_by_one:
             for e in entries:
